@@ -156,7 +156,7 @@ def norm(frames, fast):
     return [bytes([f[0] & 0x1F]) + f[1:] for f in frames]
 
 
-def concurrent_session(kind, msgs, pause_plan, stagger, after_reconnect=False):
+def concurrent_session(kind, msgs, pause_plan, stagger, after_reconnect=False, bystander=False):
     async def scenario(sim):
         sim.spawn("connect")
         await asyncio.sleep(0.1)
@@ -182,7 +182,7 @@ def concurrent_session(kind, msgs, pause_plan, stagger, after_reconnect=False):
         await asyncio.sleep(1.0)
         sim.sent_from = base
         await sim.call("close")
-    return simgw.run_session(kind, scenario)
+    return simgw.run_session(kind, scenario, bystander=bystander)
 
 
 def judge_concurrent(sim, stats, kind, msgs, pause_plan, stagger, acc, fast_of, after_reconnect=False):
@@ -268,8 +268,15 @@ def run_concurrent(spec, acc):
             plan = [rng.choice([0, 0, 1, 2, 5]) for _ in range(120)]
             stagger = [rng.choice([0, 0, 1, 2, 7]) for _ in msgs]
             ar = rep % 3 == 2
-            sim, stats = concurrent_session(kind, msgs, plan, stagger, after_reconnect=ar)
+            by = rep % 4 == 1
+            sim, stats = concurrent_session(kind, msgs, plan, stagger, after_reconnect=ar, bystander=by)
             judge_concurrent(sim, stats, kind, msgs, plan, stagger, acc, fast_of, after_reconnect=ar)
+            if by and sim is not None and not stats["error"]:
+                # nothing of what the first client sends may show up on the second client's link
+                if sim.by_conns and any(len(c.written) > (1 if kind == "waveshare" else 0) for c in sim.by_conns):
+                    acc.violation("bytes-written-to-another-clients-link", f"{kind}: a send() on one client wrote to the link of a second client in the same process",
+                                  {"client": kind, "messages": [[m.PGN, m.source] for m in msgs]})
+                simgw.judge_bystander(sim, acc, {"client": kind, "messages": [[m.PGN, m.source] for m in msgs]})
             if rep % 10 == 0:
                 acc.sample({"client": kind, "messages": [[m.PGN, m.source, len(reference_packets(kind, m))] for m in msgs], "pause_plan": plan[:12], "stagger": stagger})
     finally:
